@@ -23,7 +23,7 @@ LIBCLS = {
     'ValueFlow': ('block', 'ValueFlow'), 'FutureSplitMerge': ('block', 'FutureSplitMerge'), 'ShardDescr': ('block', 'ShardDescr'), 'SigPubKey': ('config', 'SigPubKey'),
     'ValidatorDescr': ('config', 'ValidatorDescr'), 'ValidatorSet': ('config', 'ValidatorSet'), 'CatchainConfig': ('config', 'CatchainConfig'),
     'ValidatorInfo': ('block', 'ValidatorInfo'), 'KeyExtBlkRef': ('block', 'KeyExtBlkRef'), 'KeyMaxLt': ('block', 'KeyMaxLt'), 'Counters': ('block', 'Counters'),
-    'CreatorStats': ('block', 'CreatorStats'),
+    'CreatorStats': ('block', 'CreatorStats'), 'BlockExtra': ('block', 'BlockExtra'),
 }
 TAGS = {
     ('AccStatusChange', 'acst_unchanged'): 'unchanged', ('AccStatusChange', 'acst_frozen'): 'frozen', ('AccStatusChange', 'acst_deleted'): 'deleted',
@@ -44,7 +44,7 @@ TAGS = {
 ALIAS = {('ExtBlkRef', 'seq_no'): 'seqno', ('InMsg', 'msg_discard_fin', 'fwd_fee'): 'transit_fee'}
 SINGLE_NO_TYPE = {'StorageUsedShort', 'TrStoragePhase', 'TrCreditPhase', 'TrActionPhase', 'SplitMergeInfo', 'HashUpdate', 'Transaction', 'ImportFees', 'StorageUsed', 'StorageInfo',
                   'StateInit', 'TickTock', 'AccountStorage', 'ShardAccount', 'AccountBlock', 'ShardIdent', 'ExtBlkRef', 'BlkMasterInfo', 'GlobalVersion', 'SigPubKey',
-                  'ValidatorInfo', 'KeyExtBlkRef', 'KeyMaxLt', 'Counters', 'CreatorStats'}
+                  'ValidatorInfo', 'KeyExtBlkRef', 'KeyMaxLt', 'Counters', 'CreatorStats', 'BlockExtra'}
 
 
 class Cmp:
@@ -145,18 +145,19 @@ class Cmp:
             for key in v:
                 self.go(f'{path}[{key}]', ty[2], v[key], o[key])
             return
-        if k == 'hmaug':
+        if k in ('hmaug', 'hmauge'):
             self.fields += 1
             try:
                 items, extras = o
+                items = items or {}
             except Exception:
                 return self.d(path, 'dict', f'augmented dictionary came back as {mon.srepr(o, 40)}')
             if sorted(items) != sorted(v['items']):
-                return self.d(path, 'dict', 'augmented dictionary keys differ')
+                return self.d(path, 'dict', f'augmented dictionary keys differ: {len(items)} returned, {len(v["items"])} encoded')
             for key in v['items']:
                 self.go(f'{path}[{key}]', ty[2], v['items'][key], items[key])
-            if len(extras) != 2 * len(v['items']) - 1:
-                self.d(path, 'dict', f'{len(extras)} augmentation values for {len(v["items"])} leaves')
+            if v['items'] and len(extras or []) < 2 * len(v['items']) - 1:
+                self.d(path, 'dict', f'{len(extras or [])} augmentation values for {len(v["items"])} leaves')
             return
         raise ValueError(ty)
 
@@ -227,8 +228,8 @@ def run(R):
               'BlockInfo / BlkPrevInfo / McStateExtra encoders, ShardHashes over every BinTree shape up to 5 leaves, and the ConfigParam 8/28/32-37 entry points of covered types) values are generated with every optional-field combination reachable, '
               'integers at the boundaries of their width (>= 2^63 for uint64, >= 2^31 for uint32), encoded by the reference, followed by 4 sentinel bits and one '
               'sentinel reference; the library parser must return every field with the encoded value (unsigned stays unsigned, after the documented bytes<->hex, '
-              'bit<->bool and attribute-name mapping) and leave exactly the sentinel. The bundled main-net block is decoded by a hand-written reader and compared '
-              'with Block.deserialize. distinct = distinct (constructor, encoded cell); non-trivial = constructor with at least one field')
+              'bit<->bool and attribute-name mapping) and leave exactly the sentinel. The bundled main-net block is decoded by the reference (header by hand, value flow / state update / block extra with its in-, out-message and '
+              'account-block dictionaries and every transaction in them by the generic decoder, exact consumption enforced) and compared field by field with Block.deserialize. distinct = distinct (constructor, encoded cell); non-trivial = constructor with at least one field')
     R.assumptions = ['R3 transcription (lib/tlbspec.py, lib/tlbref.py) of the bundled tlb/schemas/block.tlb', 'attribute-name differences are recorded (ALIAS/TAGS tables), not alarmed',
                      'values are generated so that each constructor fits one cell (amounts are shortened when necessary)']
     g = S.G(rng, msg_gen=lambda r: {'info': c15.g_info(r), 'init': c15.g_state_init(r) if r.random() < 0.3 else None,
@@ -266,6 +267,8 @@ def run(R):
     R.floor('fields_compared', 3000)
     R.floor('sentinel_checks', 200)
     R.floor('blockinfo_cases', 16)
+    if R.nshards == 1:
+        R.floor('mainnet_block_fields', 200)
     R.floor('config_wrapper_cases', 10)
     if R.nshards == 1:
         R.floor('shard_hashes_cases', 20)
@@ -592,6 +595,31 @@ def mainnet_block(R, L, mods):
         C.obj('$.info.master_ref', 'BlkMasterInfo', b['master_ref'], o.master_ref)
     for kk, pv in b['prev_ref'].items():
         C.obj(f'$.info.prev_ref.{kk}', 'ExtBlkRef', pv, getattr(o.prev_ref, kk, None))
+    # ---- the rest of the block, read by the generic R3 decoder (exact consumption of every referenced structure is part of the decode)
+    try:
+        vf = S.dec(T.Rd(root.refs[1]), S.t('ValueFlow'))
+        ex_r = T.Rd(root.refs[3])
+        ex = S.dec(ex_r, S.t('BlockExtra'))
+        if ex_r.left() != (0, 0):
+            raise rc.RefError(f'block extra: {ex_r.left()} left')
+    except (rc.RefError, ValueError, IndexError) as e:
+        R.inconc(f'reference-decoder-cannot-read-mainnet-block:{e}')
+        return
+    C.obj('$.value_flow', 'ValueFlow', vf, blk.value_flow)
+    upd = root.refs[2]
+    C.go('$.state_update.old_hash', S.B(32), rc.bits_to_bytes_tagged(upd.bits[8:264]), getattr(blk.state_update, 'old_hash', None))
+    C.go('$.state_update.new_hash', S.B(32), rc.bits_to_bytes_tagged(upd.bits[264:520]), getattr(blk.state_update, 'new_hash', None))
+    C.ctx.append('BlockExtra')
+    for f, ft in S.TYPES['BlockExtra'][0][2]:
+        if f == 'custom':
+            C.fields += 1
+            if (ex['custom'] is None) != (getattr(blk.extra, 'custom', None) is None):
+                C.d('$.extra.custom', 'maybe', 'presence of the masterchain extra differs')
+            continue
+        C.go(f'$.extra.{f}', ft, ex[f], getattr(blk.extra, f, None))
+    C.ctx.pop()
+    R.extra['mainnet_block'] = {'in_msgs': len(ex['in_msg_descr']['items']), 'out_msgs': len(ex['out_msg_descr']['items']), 'account_blocks': len(ex['account_blocks']['items']),
+                                'transactions': sum(len(a['transactions']['items']) for a in ex['account_blocks']['items'].values()), 'custom': ex['custom'] is not None}
     R.count('fields_compared', C.fields)
     R.count('mainnet_block_fields', C.fields)
     for path, kind, msg, where in C.diffs[:5]:
